@@ -1,7 +1,37 @@
 """Per-property configuration of the driver: which Go test decides the property,
 how the quick and thorough tiers are sized, and the text that goes into the evidence."""
 
+PBT = "generated-input search with pgregory.net/rapid: held on every generated case, no proof of absence; "
+
 CHECKS = {
+    "C01": {
+        "test": "TestC01", "level": "exploration", "crashy": True,
+        "quick": {"shards": 8, "checks": 8000, "timeout": 900},
+        "thorough": {"shards": 16, "checks": 40000, "timeout": 3400},
+        "rule": "small bundles whose commands place generated, well-typed expression trees (all operators, literal forms, data-reference "
+                "forms, $ij, globals, functions; minimal or redundant parentheses; tight or spaced operators) in the syntactic positions that "
+                "take an expression, plus deliberately valueless prints; distinct by hash of the whole case; non-trivial = an expression with "
+                ">= 2 operators, or an expression in a non-print position, or a valueless case",
+        "technique": "property-based differential testing (rapid): reference evaluator/interpreter written from the language definition vs the Go renderer",
+        "level_text": PBT + "each case compares the renderer's bytes (or its error) with an independent reference interpreter",
+        "level_note": "trusts the reference interpreter (harness/ref) and its reading of the statement; cells the statement leaves open are excluded and counted",
+        "assumptions": ["cells the language leaves unspecified (division by zero, integers beyond 2^53, NaN/Inf, -0, keys() order, negative half-way round, identity equality of collections) are excluded and counted",
+                        "'-0x..' is pinned invalid by the repository's own lexer test and is not generated"],
+    },
+    "C02": {
+        "test": "TestC02", "level": "exploration", "crashy": True,
+        "quick": {"shards": 8, "checks": 6000, "timeout": 900},
+        "thorough": {"shards": 16, "checks": 25000, "timeout": 3400},
+        "rule": "bundles of 1-3 files, 1-3 namespaces, up to 7 templates over the whole command grammar (text, special chars, literal, "
+                "if/elseif/else, switch, for/foreach/ifempty, let value/content, call with data=all / data=$expr / value and content params / "
+                "relative, qualified, aliased and name= callee names, css, log, msg, plural, recursion on a decreasing counter) with shadowing "
+                "lets and loop variables; data satisfies the declared params; distinct by hash; non-trivial = the reference run executed a "
+                "call, a shadowing let/loop, or left a block that had introduced a let",
+        "technique": "property-based differential testing (rapid): reference interpreter with block scoping and call-data semantics vs the Go renderer",
+        "level_text": PBT + "each case compares the renderer's bytes (or its error) with an independent reference interpreter",
+        "level_note": "trusts the reference interpreter (harness/ref); same-block redefinition of a name is not generated (not valid Soy)",
+        "assumptions": ["unspecified cells are excluded and counted as in C01"],
+    },
     "C20": {
         "test": "TestC20", "level": "exploration",
         "quick": {"shards": 4, "checks": 4000, "timeout": 600},
